@@ -13,8 +13,8 @@ class C03(ContCheck):
                    'map lengths below 2^31']
 
     MANIFEST = dict(
-        technique='Rocq theorems about the executable ideal dictionary (ContSpec.v) + extracted-spec/implementation correspondence check on all three map classes',
-        text=('Stage 1 of 2. The ideal dictionary (strictly ascending association list of key/value texts; it holds copies, so '
+        technique='Rocq refinement proofs (pointer-level class models -> ideal object) and theorems about the executable ideal dictionary (ContSpec.v) + extracted-spec/implementation correspondence check on all three map classes',
+        text=('The ideal dictionary (strictly ascending association list of key/value texts; it holds copies, so '
               'caller-object operations are no-ops) is defined in Rocq; theorems for ALL histories: keys stay strictly ascending '
               '(one pair per key), lookup equals the function-update semantics (a key maps to the value most recently set and not '
               'removed since), set reports replacement iff the key was present, remove hands back the pair exactly once, '
@@ -22,7 +22,8 @@ class C03(ContCheck):
               'running the extracted spec and the ASan build on the same histories, including mutation and deletion of the '
               'caller\'s key and value objects after set and continued use after removals of the smallest/largest/only key; '
               'returned objects are also checked not to be the caller\'s own. Pointer-level models and refinement proofs are '
-              'stage 2; memory safety is decided by the sanitizer run only.'),
+              'stage 2; memory safety is decided by the sanitizer run only.'
+              " Stage 2 (Properties/C03_array.v, C03_linked_list.v, C03_dlinked_list.v, C03_interchangeable.v): the pointer-level models of the three classes' map methods (probe + ordered insert of a copied pair, binary search / ordered scan, unlink on remove incl. head, inner, tail and only entry) are proved to refine the ideal dictionary for every history: never a Fault, outputs equal, keys strictly ascending, representation (incl. tail/prev links of the dlinked class) re-established after every removal; the three classes are interchangeable (corollary). 'The map holds its own copies' is decided by the correspondence check (caller objects mutated/deleted after set), the model stores key and value texts."),
         design_ref='DESIGN.md section 7, C03')
 
     def gen(self, tier, rng):
